@@ -2398,10 +2398,13 @@ def coarsen(reduction, x, axes, trim_excess=False, **kwargs):
     }
 
     coarsen_dim = lambda dim, ax: int(dim // axes.get(ax, 1))
+    # the trimmed remainder block of a coarsened axis has no output; an axis shorter
+    # than its factor is trimmed completely and keeps one zero-length block
     chunks = tuple(
         tuple(
             coarsen_dim(bd, i) for bd in bds if i not in axes or coarsen_dim(bd, i) > 0
         )
+        or (0,)
         for i, bds in enumerate(x.chunks)
     )
 
